@@ -351,7 +351,9 @@ def _url_from_file(file_or_path):
     if not isinstance(name, str):
         # e.g. the integer descriptor of a file made with os.fdopen()
         return None
-    if name and name[0] != "<" and name[-1] != ">":
+    if name and not (name[0] == "<" and name[-1] == ">"):
+        # (a pseudo-name such as '<stdin>' has both angle brackets; a
+        # file name may begin or end with one)
         return "file://" + pathname2url(os.path.abspath(name))
 
 
